@@ -85,6 +85,7 @@ type VC struct {
 	assumedContracts map[string]bool
 	params []types.Object
 	origins map[int]originRec
+	strKeys map[int]*Term // content key of strings built by concatenation (by array-id term)
 	inlineMode bool
 	retCount int
 }
